@@ -404,6 +404,59 @@ impl Coll for ImportsByName {
     }
 }
 
+/// function imports looked up by name (`ModuleImports::get_func(module, name)`) in a module whose
+/// function imports each share their module and field name with an import of another kind (a global,
+/// added first): the lookup has to find the *function* import
+struct FuncImportsByName {
+    m: Module,
+    /// the function imports in creation order (the identifier the model knows is the position here:
+    /// the shadowing globals take import ids of their own)
+    ids: Vec<ImportId>,
+    payload: Vec<u64>,
+}
+impl Coll for FuncImportsByName {
+    const NAME: &'static str = "func-imports-by-name";
+    const KIND: &'static str = "plain";
+    const HAS_FIND: bool = true;
+    fn new() -> Self {
+        FuncImportsByName { m: Module::default(), ids: vec![], payload: vec![] }
+    }
+    fn add(&mut self, v: u64) -> usize {
+        let name = format!("n{}", v);
+        // the shadowing import of another kind only once per name (it is never deleted)
+        if self.m.imports.find("env", &name).is_none() {
+            self.m.add_import_global("env", &name, ValType::I32, false, false);
+        }
+        let ty = self.m.types.add(&[], &[]);
+        let id = self.m.add_import_func("env", &name, ty).1;
+        self.ids.push(id);
+        self.payload.push(v);
+        self.ids.len() - 1
+    }
+    fn known(&self) -> usize {
+        self.ids.len()
+    }
+    fn del(&mut self, i: usize) {
+        self.m.imports.delete(self.ids[i])
+    }
+    fn touch_mut(&mut self, i: usize) {
+        let _ = self.m.imports.get_mut(self.ids[i]);
+    }
+    fn idx(&self, i: usize) -> u64 {
+        let _ = self.m.imports.get(self.ids[i]);
+        self.payload[i]
+    }
+    fn iter(&mut self) -> Vec<(usize, u64)> {
+        let live: Vec<ImportId> = self.m.imports.iter().filter(|x| matches!(x.kind, ImportKind::Function(_))).map(|x| x.id()).collect();
+        live.iter().filter_map(|id| self.ids.iter().position(|k| k == id)).map(|k| (k, self.payload[k])).collect()
+    }
+    fn find(&self, v: u64) -> Option<usize> {
+        let f = self.m.imports.get_func("env", &format!("n{}", v)).ok()?;
+        let id = self.m.imports.iter().find(|x| matches!(x.kind, ImportKind::Function(g) if g == f))?.id();
+        self.ids.iter().position(|k| *k == id)
+    }
+}
+
 /// exports deleted through `ModuleExports::remove(name)` (unique names)
 struct ExportsByName {
     m: Module,
@@ -868,6 +921,7 @@ pub fn main(seed: u64, tier: &str, only: Option<&str>) {
             "types-named" => go!(TypesNamed),
             "types-entry" => go!(TypesEntry),
             "imports-by-name" => go!(ImportsByName),
+            "func-imports-by-name" => go!(FuncImportsByName),
             "exports-by-name" => go!(ExportsByName),
             "memories" => go!(Memories),
             "tables" => go!(Tables),
@@ -889,6 +943,7 @@ pub fn main(seed: u64, tier: &str, only: Option<&str>) {
     suite::<TypesEntry>(seed ^ 0x7b, n, maxlen, enum_len, &mut seen);
     suite::<ImportsByName>(seed ^ 0x7c, n, maxlen, enum_len, &mut seen);
     suite::<ExportsByName>(seed ^ 0x7d, n, maxlen, enum_len, &mut seen);
+    suite::<FuncImportsByName>(seed ^ 0x7f, n, maxlen, enum_len, &mut seen);
     suite::<Memories>(seed, n, maxlen, enum_len, &mut seen);
     suite::<Tables>(seed, n, maxlen, enum_len.min(3), &mut seen);
     suite::<Globals>(seed, n, maxlen, enum_len.min(3), &mut seen);
